@@ -130,7 +130,7 @@ impl Property for C04 {
         "C04"
     }
     fn rule(&self) -> String {
-        "cases: (a) byte inputs as for C02 (valid records and re-signed structural mutants), for every key type: whenever the library accepts an input, re-encoding the record reproduces the consumed bytes bit for bit (also in the regions C02 leaves open) and the record's fields equal the independent parse; (b) call histories as for C05 (all 22 mutators, typed / raw / reserved / custom keys and values, eleven key families (four built-in types with both CombinedKey variants, six custom schemes: variable / very long signatures, 21-byte records, signature lengths 50..61, one-byte key and signature, 64-byte key)): every record returned by the builder, an update or a decode is encoded to bytes, to_base64, Display, JSON string and JSON value, plus an alloy-rlp-encoded list of two copies; Encodable::length() must equal the encoding length; each form must decode back to a record that is == the original and has identical seq / pairs / signature / public key / node id / encoding; to_base64 must equal 'enr:' + reference base64 of the encoding; the encoding must be accepted by the reference decoder with the same fields. Non-trivial: an accepted input, or a history record with a custom key, a list value, an empty value, a boundary sequence number or >= 2 updates. Distinct by hash of the case.".into()
+        "cases: (a) byte inputs as for C02 (valid records and re-signed structural mutants), for every key type: whenever the library accepts an input, re-encoding the record reproduces the consumed bytes bit for bit (also in the regions C02 leaves open) and the record's fields equal the independent parse; (b) call histories as for C05 (all 22 mutators, typed / raw / reserved / custom keys and values, twelve key families (four built-in types with both CombinedKey variants, seven custom schemes: variable / very long signatures, 21-byte records, signature lengths 50..61, one-byte key and signature, 64..130-byte keys, empty signature)): every record returned by the builder, an update or a decode is encoded to bytes, to_base64, Display, JSON string and JSON value, plus an alloy-rlp-encoded list of two copies; Encodable::length() must equal the encoding length; each form must decode back to a record that is == the original and has identical seq / pairs / signature / public key / node id / encoding; to_base64 must equal 'enr:' + reference base64 of the encoding; the encoding must be accepted by the reference decoder with the same fields. Non-trivial: an accepted input, or a history record with a custom key, a list value, an empty value, a boundary sequence number or >= 2 updates. Distinct by hash of the case.".into()
     }
     fn assumptions(&self) -> Vec<String> {
         vec!["independent parse = reference decoder of C02".into()]
